@@ -1279,6 +1279,11 @@ class SSHConnection(SSHPacketHandler, asyncio.Protocol):
 
         assert self._trusted_host_keys is not None
 
+        # Only trust the entries matching this host. A server does a
+        # new lookup for each host-based auth request it receives.
+        self._trusted_host_keys = set()
+        self._trusted_host_key_algs = []
+
         for key in trusted_host_keys:
             self._trusted_host_keys.add(key)
 
@@ -1289,7 +1294,8 @@ class SSHConnection(SSHPacketHandler, asyncio.Protocol):
         self._revoked_host_keys = set(revoked_host_keys)
 
         if self._x509_trusted_certs is not None:
-            self._x509_trusted_certs = list(self._x509_trusted_certs)
+            self._x509_trusted_certs = \
+                list(self._options.x509_trusted_certs or ())
             self._x509_trusted_certs.extend(trusted_x509_certs)
             self._x509_revoked_certs = set(revoked_x509_certs)
 
